@@ -594,7 +594,7 @@ def load_known(pid):
 def finish(ctx, bounds=None, rule='', trusted=None, extra=None):
     if len(ctx.queries) > 400:
         # keep the evidence file readable: full records for failures/inconclusive ones, a compact line for the rest
-        ctx.queries = [r if r.get('status') != 'pass' else {k: r.get(k) for k in ('query', 'status', 'seconds', 'witness')} for r in ctx.queries]
+        ctx.queries = [r if r.get('status') != 'pass' else {k: r.get(k) for k in ('query', 'status', 'seconds', 'witness', 'properties')} for r in ctx.queries]
     wall = time.time() - ctx.t0
     nontrivial = sum(1 for r in ctx.queries if r.get('status') in ('pass', 'fail') and (r.get('witness') == 'reached' or r.get('status') == 'fail' or r.get('programs') or ctx.extra.get('count_all_verdicts')))
     fnames = sorted(ctx.functions)
@@ -618,6 +618,13 @@ def finish(ctx, bounds=None, rule='', trusted=None, extra=None):
         'notes': ctx.notes,
         'encoding': 'regenerated from %s on this run' % REPO,
     }
+    if ctx.level == 'model_checking':
+        # measured on this run: 'states' = solver queries that returned a verdict (each one a symbolically described family of
+        # pre-states/inputs, see bounds), 'transitions' = proof obligations (assertions incl. memory-safety checks) CBMC
+        # discharged in them
+        cov['states'] = sum(1 for r in ctx.queries if r.get('status') in ('pass', 'fail'))
+        cov['transitions'] = sum(int(r.get('properties') or 0) for r in ctx.queries if r.get('status') in ('pass', 'fail'))
+        cov['states_transitions_meaning'] = 'states = solver queries with a verdict (each a symbolic family of states/inputs); transitions = assertions CBMC discharged in them'
     if ctx.level == 'translation_validation':
         cov['programs'] = ctx.extra.get('programs', 0)
         cov['disagreements_checked'] = ctx.extra.get('disagreements_checked', 0)
